@@ -31,13 +31,25 @@ Theorem C12_frechet (op : R -> R -> R) (XL XR XL' XR' YL YR : list R) n :
   length XL = n -> length XR = n -> length YL = n -> length YR = n -> ple XL' XL -> ple XR XR' ->
   pinside (frechet_op RN op XL XR YL YR) (frechet_op RN op XL' XR' YL YR).
 Proof. intros M. exact (frechet_iso op M XL XR XL' XR' YL YR n). Qed.
-(* perfect dependence, any operation and sign (opposite and independent use the same step-wise argument) *)
+(* perfect dependence, any operation and sign (opposite and independent follow) *)
 Theorem C12_perfect (op : bop) (XL XR XL' XR' YL YR : list R) :
   length XR = length XL -> length YL = length XL -> length YR = length XL -> length XL' = length XL -> length XR' = length XL ->
   Forall2 sub_pr (combine XL XR) (combine XL' XR') -> Forall wfp (combine XL XR) -> Forall wfp (combine XL' XR') -> Forall wfp (combine YL YR) ->
   (is_div op = true -> Forall (fun q => ~ has0 q) (combine YL YR)) ->
   pinside (perfect_op RN (opR op) XL XR YL YR) (perfect_op RN (opR op) XL' XR' YL YR).
 Proof. exact (perfect_iso op XL XR XL' XR' YL YR). Qed.
+Theorem C12_opposite (op : bop) (XL XR XL' XR' YL YR : list R) :
+  length XR = length XL -> length YL = length XL -> length YR = length XL -> length XL' = length XL -> length XR' = length XL ->
+  Forall2 sub_pr (combine XL XR) (combine XL' XR') -> Forall wfp (combine XL XR) -> Forall wfp (combine XL' XR') -> Forall wfp (combine YL YR) ->
+  (is_div op = true -> Forall (fun q => ~ has0 q) (combine YL YR)) ->
+  pinside (opposite_op RN (opR op) XL XR YL YR) (opposite_op RN (opR op) XL' XR' YL YR).
+Proof. exact (opposite_iso op XL XR XL' XR' YL YR). Qed.
+Theorem C12_independent (op : bop) (XL XR XL' XR' YL YR : list R) :
+  length XR = length XL -> length YR = length YL -> length XL' = length XL -> length XR' = length XL ->
+  Forall2 sub_pr (combine XL XR) (combine XL' XR') -> Forall wfp (combine XL XR) -> Forall wfp (combine XL' XR') -> Forall wfp (combine YL YR) ->
+  (is_div op = true -> Forall (fun q => ~ has0 q) (combine YL YR)) ->
+  pinside (independent_op RN (opR op) XL XR YL YR) (independent_op RN (opR op) XL' XR' YL YR).
+Proof. exact (independent_iso op XL XR XL' XR' YL YR). Qed.
 (* envelope, imposition *)
 Theorem C12_envelope p p' q : pinside p p' -> length (fst p) = length (fst q) -> length (snd p) = length (snd q) -> pinside (env_raw p q) (env_raw p' q).
 Proof. exact (env_iso p p' q). Qed.
